@@ -689,9 +689,109 @@ func (fi *FnInfo) structLitFields(v ssa.Value) map[string]*Term {
 		}
 	}
 	if al == nil {
+		// a struct built in the enclosing function and captured by this closure
+		if ld, ok := v.(*ssa.UnOp); ok && ld.Op == token.MUL {
+			if fv, ok := ld.X.(*ssa.FreeVar); ok {
+				if pal, pfi := fi.capturedAlloc(fv); pal != nil {
+					out := map[string]*Term{}
+					for k, t := range pfi.allocFields(pal, 0) {
+						out[k] = t.paramsToFree()
+					}
+					return out
+				}
+			}
+		}
 		return nil
 	}
 	return fi.allocFields(al, 0)
+}
+
+// capturedAlloc: the local variable of the enclosing function a free variable is bound to (same at
+// every creation site of the closure).
+func (fi *FnInfo) capturedAlloc(fv *ssa.FreeVar) (*ssa.Alloc, *FnInfo) {
+	fn := fi.Fn
+	par := fn.Parent()
+	if par == nil {
+		return nil, nil
+	}
+	idx := -1
+	for i, f := range fn.FreeVars {
+		if f == fv {
+			idx = i
+		}
+	}
+	var al *ssa.Alloc
+	for _, b := range par.Blocks {
+		for _, in := range b.Instrs {
+			if mc, ok := in.(*ssa.MakeClosure); ok && mc.Fn == ssa.Value(fn) && idx >= 0 && idx < len(mc.Bindings) {
+				a, isA := mc.Bindings[idx].(*ssa.Alloc)
+				if !isA || (al != nil && al != a) {
+					return nil, nil
+				}
+				al = a
+			}
+		}
+	}
+	if al == nil {
+		return nil, nil
+	}
+	return al, fi.p.Info(par)
+}
+
+// liftTuples expresses the terms ts (over f's parameters / captured variables) in the terms of the
+// root functions they are reached from: f itself if it is a root, else through every static call
+// site of f inside scope (closures count as part of their enclosing function). One tuple per chain.
+func (p *Prog) liftTuples(f *ssa.Function, ts []*Term, isRoot func(*ssa.Function) bool, scope map[*ssa.Function]bool, depth int) ([][]*Term, bool) {
+	norm := func(xs []*Term) []*Term {
+		out := make([]*Term, len(xs))
+		for i, x := range xs {
+			if x != nil {
+				out[i] = x.freeToParams()
+			}
+		}
+		return out
+	}
+	top := f
+	for top.Parent() != nil {
+		top = top.Parent()
+	}
+	if isRoot(f) || isRoot(top) {
+		return [][]*Term{norm(ts)}, true
+	}
+	if depth >= 3 {
+		return nil, false
+	}
+	var out [][]*Term
+	n := 0
+	for _, cs := range p.CG().Callers(top) {
+		ctop := cs.Caller
+		for ctop.Parent() != nil {
+			ctop = ctop.Parent()
+		}
+		if !scope[origin(ctop)] || isTestScaffold(cs.Caller) || cs.Instr.Common().IsInvoke() {
+			continue
+		}
+		n++
+		cfi := p.Info(cs.Caller)
+		m := map[string]*Term{}
+		for i, prm := range top.Params {
+			if i < len(cs.Instr.Common().Args) {
+				m[prm.Name()] = cfi.T(cs.Instr.Common().Args[i])
+			}
+		}
+		lifted := make([]*Term, len(ts))
+		for i, t := range norm(ts) {
+			if t != nil {
+				lifted[i] = t.subst(m)
+			}
+		}
+		sub, ok := p.liftTuples(cs.Caller, lifted, isRoot, scope, depth+1)
+		if !ok {
+			return nil, false
+		}
+		out = append(out, sub...)
+	}
+	return out, n > 0
 }
 
 // allocFields: field stores into a local struct; a whole-value store from another local struct
